@@ -285,7 +285,36 @@ func (c ProgCfg) plantMerge(r *Rand, doc any) (any, string) {
 		return doc, ""
 	}
 	v, _ := Get(doc, h)
-	v.(map[string]any)["$merge"] = refForm(r, ks)
+	hm := v.(map[string]any)
+	hm["$merge"] = refForm(r, ks)
+	// local content that overlaps the referenced subtree: the merge then has
+	// to descend into the host's own containers (empty ones included)
+	if tv, ok := Get(doc, t); ok {
+		if tm, ok := tv.(map[string]any); ok && !IsPrefix(t, h) {
+			for _, k := range SortedKeys(tm) {
+				if strings.HasPrefix(k, "$") || !r.Chance(0.35) {
+					continue
+				}
+				if _, exists := hm[k]; exists {
+					continue
+				}
+				switch tm[k].(type) {
+				case map[string]any:
+					if r.Chance(0.6) {
+						hm[k] = map[string]any{}
+					} else {
+						hm[k] = map[string]any{PickAny(r, WideKeys[6:]): c.Tree.Scalar(r)}
+					}
+				case []any:
+					if r.Chance(0.6) {
+						hm[k] = []any{}
+					} else {
+						hm[k] = []any{c.Tree.Scalar(r)}
+					}
+				}
+			}
+		}
+	}
 	return doc, "merge-map"
 }
 
@@ -472,7 +501,18 @@ func (c ProgCfg) plantInterp(r *Rand, doc any) (any, string) {
 	if !ok || len(h) == 0 {
 		return doc, ""
 	}
-	s := `$"` + r.Pick("", "pre-", "a b ") + "{" + pathString(ks) + "}" + r.Pick("", "-post", "}") + `"`
+	s := `$"` + r.Pick("", "pre-", "a b ") + "{" + pathString(ks) + "}" + r.Pick("", "-post", "}")
+	// templates with several references (to the same or to another value)
+	for extra := r.Intn(3); extra > 0; extra-- {
+		ks2 := ks
+		if r.Chance(0.5) {
+			if k3, _, ok := c.targetKeys(r, doc, isScalar); ok {
+				ks2 = k3
+			}
+		}
+		s += r.Pick("-", "/", " ", "") + "{" + pathString(ks2) + "}"
+	}
+	s += `"`
 	return Set(doc, h, s), "interp"
 }
 
